@@ -70,14 +70,14 @@ theorem step_send (s : Sess) (p : String) (hp : s.cfg.persist = true) :
   simp [Sess.clearLog, Sess.emit, Sess.setToSend, sentSess, hres, hk]
 
 theorem msgOK_appS (s : Sess) (p : String) (hp : p ≠ "") : MsgOK (appMsgS s p) := by
-  refine ⟨?_, (show "D" ≠ "" by decide), (show "D" ≠ "4" by decide), fun _ => ⟨p, rfl⟩, fun h => absurd (show "D" = "2" from h) (by decide)⟩
+  refine ⟨?_, SecOrd.body rfl, (show "D" ≠ "" by decide), (show "D" ≠ "4" by decide), fun _ => ⟨p, rfl⟩, fun h => absurd (show "D" = "2" from h) (by decide)⟩
   intro q hq
   have : q ∈ [(9000, p)] := hq
   simp only [List.mem_singleton] at this; subst this
   exact ⟨hp, by simp, by simp, fun h => absurd (show isAdminKind "D" = true from h) (by decide), by simp⟩
 
 theorem msgOK_app (p : String) (n : Int) (hp : p ≠ "") : MsgOK (appMsg n p) := by
-  refine ⟨?_, (show "D" ≠ "" by decide), (show "D" ≠ "4" by decide), fun _ => ⟨p, rfl⟩, fun h => absurd (show "D" = "2" from h) (by decide)⟩
+  refine ⟨?_, SecOrd.body rfl, (show "D" ≠ "" by decide), (show "D" ≠ "4" by decide), fun _ => ⟨p, rfl⟩, fun h => absurd (show "D" = "2" from h) (by decide)⟩
   intro q hq
   simp only [appMsg, List.mem_singleton] at hq; subst hq
   exact ⟨hp, by simp, by simp, fun h => absurd (show isAdminKind "D" = true from h) (by decide), by simp⟩
